@@ -56,20 +56,23 @@ func checkC13(r *evid.Run) {
 	})
 	// histories that mix the validating operations (verify) with walks/outputs of trees whose names are
 	// not valid path elements: what one operation switches on must not leak into a later one
-	runApiModel(r, "MC_C13_fsops.cfg", timeout, func(a *apiState) {
-		if len(a.Hist) == 0 {
-			return
-		}
-		c := concs[a.N%len(concs)]
-		apiMu.Lock()
-		d, kind := replayHistory(a, c, false)
-		apiMu.Unlock()
-		r.Count("real_calls", len(a.Hist))
-		if d != "" {
-			r.Mismatch("api-history:"+kind, fmt.Sprintf("history [%s] conc=%s: %s", histString(a.Hist), c.Name, d),
-				apiReplayRec{Hist: a.Hist, Conc: c, Variant: a.N})
-		}
-	})
+	// (MC_C13_verify: plain names added in any order, a failing verify in between: what it walks it must not reorder)
+	for _, cfg := range []string{"MC_C13_fsops.cfg", "MC_C13_verify.cfg"} {
+		runApiModel(r, cfg, timeout, func(a *apiState) {
+			if len(a.Hist) == 0 {
+				return
+			}
+			c := concs[a.N%len(concs)]
+			apiMu.Lock()
+			d, kind := replayHistory(a, c, false)
+			apiMu.Unlock()
+			r.Count("real_calls", len(a.Hist))
+			if d != "" {
+				r.Mismatch("api-history:"+kind, fmt.Sprintf("history [%s] conc=%s: %s", histString(a.Hist), c.Name, d),
+					apiReplayRec{Hist: a.Hist, Conc: c, Variant: a.N})
+			}
+		})
+	}
 	// deep single-name chains with the encoders: use, Add below what was there (the new nodes draw the indexes of old
 	// ones after the counter reset), use again - up to 7 calls (thorough: 8) over one name
 	deep := "MC_C13_deep.cfg"
